@@ -300,8 +300,8 @@ var chkSerial = harness.Define("client-hooks-serial-batch",
 	})
 
 func TestRandom(t *testing.T) {
-	chkHook.Rapid(t, harness.Pick(4000, 30000))
-	chkSerial.Rapid(t, harness.Pick(3, 20))
+	chkHook.Rapid(t, harness.Pick(4000, 200000))
+	chkSerial.Rapid(t, harness.Pick(3, 60))
 }
 
 // TestSingleCuts: every single cut of one reply per function x network client kind, with an empty read in between.
